@@ -721,7 +721,7 @@ fn prop_q(file_bytes: &[u8], key: &[u8], lossy: bool) -> Verdict {
         let pick = |es: &Entries| -> Vec<Option<Vec<u8>>> { es.iter().filter(|(n, _)| *n == canon).map(|(_, v)| v.clone()).collect() };
         let want = pick(&entries);
         let want_verbatim = pick(&entries_verbatim);
-        let qs = String::from_utf8_lossy(q).to_string();
+        let qs = format!("{:?}", String::from_utf8_lossy(q));
         let flat = |w: &[Option<Vec<u8>>]| -> Vec<Vec<u8>> { w.iter().map(|v| v.clone().unwrap_or_default()).collect() };
         let want_strings = flat(&want);
         let got_strings: Vec<Vec<u8>> = file.strings(q.as_bstr()).unwrap_or_default().iter().map(|s| s.to_vec()).collect();
@@ -825,14 +825,16 @@ fn legacy_header_with_upper(file: &[u8]) -> bool {
     }
     false
 }
-/// a `[a.b.c]` header (more than one dot): git's key is a.b.c.<name>, gix splits at the last dot
+/// a `[a.b.c]` or `[a.b "x"]` header (a dot besides the one legacy separator): git's key is a.b.c.<name> / a.b.x.<name>,
+/// gix splits headers at the last dot, but keys at the first
 fn dotted_section(file: &[u8]) -> bool {
     for line in file.split(|&b| b == b'\n') {
         let mut rest = line;
         while let Some(p) = rest.iter().position(|&b| b == b'[') {
             rest = &rest[p + 1..];
             let end = rest.iter().position(|&b| !(b.is_ascii_alphanumeric() || b == b'-' || b == b'.')).unwrap_or(rest.len());
-            if rest[..end].iter().filter(|&&b| b == b'.').count() > 1 {
+            let dots = rest[..end].iter().filter(|&&b| b == b'.').count();
+            if dots > 1 || (dots == 1 && rest.get(end) != Some(&b']')) {
                 return true;
             }
         }
@@ -1230,6 +1232,9 @@ fn boundary() -> Vec<Case> {
 }
 
 fn gen(rng: &mut Rng, n: usize) -> Vec<Case> {
+    // Rng::new(seed) starts seed steps further along ONE SplitMix64 sequence, so the streams of
+    // neighbouring seeds merge after a few cases; restart from a mixed output instead
+    *rng = Rng(rng.next() ^ 0xc27c27c27c27c27);
     let mut out = boundary();
     while out.len() < n {
         match rng.below(20) {
